@@ -923,6 +923,65 @@ pub fn cyclic_conflict(rng: &mut Rng) -> (World, ProblemSpec) {
     (w, ProblemSpec { requirements, constraints: vec![], soft: vec![] })
 }
 
+/// Deep prefix: the problem's requirements move behind a chain of `len` packages with two candidates each (the
+/// preferred one continues the chain, the other one is a leaf), so that the solver has made `len` decisions - one
+/// decision level each - before it reaches the original world. Root constraints and soft requirements stay where they are.
+pub fn add_deep_prefix(rng: &mut Rng, w: &mut World, p: &mut ProblemSpec, len: usize) {
+    let mut next_name = w.packages.keys().max().map(|m| m + 1).unwrap_or(0);
+    let mut next_s = w.solvables.keys().max().map(|m| m + 1).unwrap_or(0);
+    let mut next_vs = w.version_sets.keys().max().map(|m| m + 1).unwrap_or(0);
+    let mut tail_reqs = std::mem::take(&mut p.requirements);
+    // built from the far end: link i requires link i+1
+    for i in (0..len).rev() {
+        let (a, b) = (next_s, next_s + 1);
+        next_s += 2;
+        let n = next_name;
+        next_name += 1;
+        w.solvables.insert(a, Solvable { name: n, deps: Deps::Known { requirements: std::mem::take(&mut tail_reqs), constrains: vec![] } });
+        w.solvables.insert(b, Solvable { name: n, deps: Deps::Known { requirements: vec![], constrains: vec![] } });
+        let leaf_first = i > 0 && rng.chance(1, 12);
+        w.packages.insert(n, Package { candidates: vec![a, b], rank: if leaf_first { vec![b, a] } else { vec![a, b] }, favored: None, locked: None, excluded: vec![], hint: Hint::None, missing: false });
+        w.version_sets.insert(next_vs, VersionSet { name: n, matches: vec![a, b] });
+        tail_reqs = vec![Req::Single(next_vs)];
+        next_vs += 1;
+    }
+    p.requirements = tail_reqs;
+}
+
+/// `k` further problems over an existing world, built from the version sets and unions the world already has (the
+/// world is not changed): used to put earlier solves in front of a problem on one solver.
+pub fn problems_over(rng: &mut Rng, w: &World, p: &GenParams, k: usize) -> Vec<ProblemSpec> {
+    let vss: Vec<u32> = w.version_sets.keys().copied().collect();
+    let unions: Vec<u32> = w.unions.keys().copied().collect();
+    let all: Vec<u32> = w.solvables.keys().copied().collect();
+    let mut out = Vec::new();
+    for _ in 0..k {
+        let mut requirements = Vec::new();
+        if !vss.is_empty() {
+            for _ in 0..rng.range(1, p.max_root_reqs.max(1)) {
+                let r = if !unions.is_empty() && rng.chance(1, 6) { Req::Union(*rng.pick(&unions)) } else { Req::Single(*rng.pick(&vss)) };
+                if !requirements.contains(&r) {
+                    requirements.push(r);
+                }
+            }
+        }
+        let mut constraints = Vec::new();
+        if !vss.is_empty() {
+            for _ in 0..rng.below(p.max_root_constraints + 1) {
+                constraints.push(*rng.pick(&vss));
+            }
+        }
+        let mut soft = Vec::new();
+        if !all.is_empty() && rng.chance(1, 3) {
+            for _ in 0..rng.range(1, 2) {
+                soft.push(*rng.pick(&all));
+            }
+        }
+        out.push(ProblemSpec { requirements, constraints, soft });
+    }
+    out
+}
+
 /// Wide fan-out family: a solvable (the root, or a single solvable the root requires) with `width` requirements on
 /// distinct packages (futures combinators and request budgets change behaviour beyond a few dozen members), plus
 /// optionally one package with many hinted candidates and a union with many members.
@@ -1008,6 +1067,49 @@ pub fn gen_wide(rng: &mut Rng, width: usize) -> (World, ProblemSpec) {
         reqs.push(Req::Single(next_vs));
         next_vs += 1;
     }
+    // constraint fan: one solvable (or the root) with 17..40 constrains entries, most of them on packages that nothing
+    // requires (their candidates are needed only to build the constrains clauses)
+    let mut root_constraints: Vec<u32> = Vec::new();
+    if rng.chance(1, 3) {
+        let k = rng.range(17, 40);
+        let mut cons = Vec::new();
+        let mut fresh_name = width as u32 + 5000;
+        for _ in 0..k {
+            let (name, cands) = if rng.chance(1, 5) {
+                let n = rng.below(width) as u32;
+                (n, w.packages[&n].candidates.clone())
+            } else {
+                let n = fresh_name;
+                fresh_name += 1;
+                let c: Vec<u32> = (next_s..next_s + 2).collect();
+                next_s += 2;
+                for x in &c {
+                    w.solvables.insert(*x, Solvable { name: n, deps: Deps::Known { requirements: vec![], constrains: vec![] } });
+                }
+                w.packages.insert(n, Package { candidates: c.clone(), rank: c.clone(), favored: None, locked: None, excluded: vec![], hint: Hint::None, missing: false });
+                (n, c)
+            };
+            // allow everything but (at most) one candidate, so that the constraint rarely bites
+            let mut m = cands.clone();
+            if m.len() > 1 && rng.chance(1, 2) {
+                m.remove(rng.below(m.len()));
+            }
+            m.sort();
+            w.version_sets.insert(next_vs, VersionSet { name, matches: m });
+            cons.push(next_vs);
+            next_vs += 1;
+        }
+        if rng.chance(1, 2) {
+            root_constraints = cons;
+        } else {
+            // on the first-ranked candidate of a root-required package
+            let target = rng.below(width) as u32;
+            let first = w.packages[&target].rank[0];
+            if let Deps::Known { constrains, .. } = &mut w.solvables.get_mut(&first).unwrap().deps {
+                constrains.extend(cons);
+            }
+        }
+    }
     // a union with many members
     if rng.chance(1, 3) && width >= 34 {
         let k = rng.range(31, width.min(45));
@@ -1017,12 +1119,12 @@ pub fn gen_wide(rng: &mut Rng, width: usize) -> (World, ProblemSpec) {
         reqs.insert(rng.below(reqs.len() + 1), Req::Union(0));
     }
     let problem = if rng.chance(1, 2) {
-        ProblemSpec { requirements: reqs, constraints: vec![], soft: vec![] }
+        ProblemSpec { requirements: reqs, constraints: root_constraints, soft: vec![] }
     } else {
         // behind one solvable
         let name = width as u32 + 500;
         let s = next_s;
-        w.solvables.insert(s, Solvable { name, deps: Deps::Known { requirements: reqs, constrains: vec![] } });
+        w.solvables.insert(s, Solvable { name, deps: Deps::Known { requirements: reqs, constrains: root_constraints } });
         w.packages.insert(name, Package { candidates: vec![s], rank: vec![s], favored: None, locked: None, excluded: vec![], hint: Hint::None, missing: false });
         w.version_sets.insert(next_vs, VersionSet { name, matches: vec![s] });
         ProblemSpec { requirements: vec![Req::Single(next_vs)], constraints: vec![], soft: vec![] }
